@@ -166,6 +166,9 @@ func classes(sc *scen.Scenario, res *scen.Result, intended scen.Corner) []string
 	if sc.FirstDialRefused {
 		cls = append(cls, "second-attempt-after-refused-connection")
 	}
+	if sc.ServerClockOffset > 0 {
+		cls = append(cls, "server-clock-after-2038")
+	}
 	if sc.HS.PQPad8 {
 		cls = append(cls, "pq:padded-to-8")
 	}
